@@ -246,9 +246,9 @@ def data_edits(table, rich=True):
     for nm in names:
         eds.append(["dropcol", nm])
     eds.append(["addcol", "z", "end"])
+    eds.append(["addcol", "a2", "end"])   # matched by the regex edit "a.*": a regex column with two matches, the first of which may be the failing one
     if rich:
         eds.append(["addcol", "z", "front"])
-        eds.append(["addcol", "a2", "end"])   # matched by the regex edit "a.*"
     if len(names) >= 2:
         eds.append(["swapcols", 0, 1])
     if rich:
